@@ -972,6 +972,8 @@ func main() {
 		do(r, b.c)
 	}
 	r.Note("observation: readings before the epoch (negative time units) are outside the model's domain; on the real code every such call was refused (oracle key no-error:before-epoch never fired)")
+	// 6b. tr.go: the translated expressions against the real Next / NewSnowflake
+	trLeg(r)
 	// 7. concurrent callers of one generator
 	nConc := r.Scale(3, 12)
 	if r.Search {
